@@ -5,9 +5,32 @@ import dbtie
 PROFILE = {'scenario_pref': ['zones', 'sparse_write', 'handle_unset', 'shared_maps', 'torn_update', 'zones', 'same_count'], 'p_write': 0.55, 'writes': {'insert': 2, 'insert_multiple': 1, 'remove': 1, 'update': 6, 'update_all': 2, 'reindex': 0.5, 'reopen': 0.5, 'handle': 1.5}}
 
 
+def direct_subclass(ck, tf):
+    """stored points that are instances of a SUBCLASS of Point (MemoryStorage keeps the caller's objects): the count an update returns is the number
+    of points whose content changed, and an update applied twice changes nothing the second time"""
+    from datetime import datetime, timedelta, timezone
+    from tinyflux.storages import MemoryStorage
+
+    class Reading(tf.Point):
+        """a user's own Point subclass"""
+    t0 = datetime(2020, 1, 1, tzinfo=timezone.utc)
+    for auto in (True, False):
+        db = tf.TinyFlux(storage=MemoryStorage, auto_index=auto)
+        db.insert_multiple([Reading(time=t0 + timedelta(seconds=i), measurement="m", tags={"k": "x"}, fields={"a": float(i % 2)}) for i in range(5)])
+        for desc, call, want in (("update(a >= 0, fields={'a': 1.0})", lambda: db.update(tf.FieldQuery().a >= 0, fields={"a": 1.0}), 3),
+                                 ("the same update again", lambda: db.update(tf.FieldQuery().a >= 0, fields={"a": 1.0}), 0),
+                                 ("update_all(tags={'k': 'x'})", lambda: db.update_all(tags={"k": "x"}), 0),
+                                 ("update_all(measurement='m')", lambda: db.update_all(measurement="m"), 0)):
+            got = call()
+            if got != want:
+                ck.violation({"kind": "failing-input", "config": {"csv": False, "auto_index": auto}, "why": f"five stored points of a Point subclass (fields a = 0,1,0,1,0): {desc} "
+                              f"returned {got}; the number of points whose content changed is {want}"})
+                return
+
+
 def main(tier, seed):
     import c11
     return dbtie.db_check("C03", tier, seed, PROFILE, 650, 6000, "Prop_C03",
                           "user callables and re are an environment the theorems quantify over; the tie instantiates them with the twin table",
-                          direct=lambda ck, tf: c11.direct_exceptions(ck, tf, "C03"))
+                          direct=lambda ck, tf: (c11.direct_exceptions(ck, tf, "C03"), direct_subclass(ck, tf)))
 
